@@ -173,6 +173,16 @@ fn codecs(r: &mut Rep) {
         }
         // selector raw decode
         let s = SegmentSelector(x);
+        // the human-readable form of a selector shows the same index and privilege level as the accessors, for every encoding
+        // (a selector with the table-indicator bit set is as printable as any other)
+        {
+            let txt = catch(|| format!("{:?}", s));
+            let want_i = format!("index: {}", x >> 3);
+            let want_r = format!("rpl: Ring{}", x & 3);
+            if !matches!(&txt, Ok(t) if t.contains(&want_i) && t.contains(&want_r)) {
+                r.viol("C19|SegmentSelector|Debug-text-panics-or-disagrees-with-index/rpl", &format!("selector {:#x}", x), &format!("{:?}", txt));
+            }
+        }
         if s.index() != x >> 3 || s.rpl() as u16 != x & 3 {
             r.viol("C19|SegmentSelector|index/rpl-wrong", &format!("selector {:#x}", x), "");
         }
